@@ -36,8 +36,36 @@ namespace vu::pos
                       utf8::not_range< 0x80, 0x10ffff >, utf8::ranges< 0x20, 0x7e, 0x800, 0xffff >, utf8::ranges< 0, 0x7e, 0x800, 0xffff, 0x10ffff >, utf8::bom >( in );
    }
 
+   template< typename Input >
+   std::size_t input_ops( Input& in )
+   {
+      in.bump();
+      in.bump_in_this_line();
+      in.bump_to_next_line();
+      return in.byte() + in.position().line;
+   }
+
+   template< typename Input >
+   bool rematches( Input& in )
+   {
+      return normal< rematch< plus< alpha >, string< 'a', 'b' >, one< 'a' > > >::template match< apply_mode::action, rewind_mode::required, nothing, normal >( in );
+   }
+
+   template< typename Eol >
+   std::size_t lazy_and_buffer( memory_input< tracking_mode::lazy, Eol >& a, buffer_input< Reader, Eol, std::string, 64 >& b )
+   {
+      return input_ops( a ) + input_ops( b ) + rematches( a );
+   }
+
+   inline std::size_t all_inputs( memory_input< tracking_mode::lazy, eol::lf >& a1, buffer_input< Reader, eol::lf, std::string, 64 >& b1, memory_input< tracking_mode::lazy, eol::cr >& a2, buffer_input< Reader, eol::cr, std::string, 64 >& b2,
+                                  memory_input< tracking_mode::lazy, eol::crlf >& a3, buffer_input< Reader, eol::crlf, std::string, 64 >& b3, memory_input< tracking_mode::lazy, eol::lf_crlf >& a4, buffer_input< Reader, eol::lf_crlf, std::string, 64 >& b4,
+                                  memory_input< tracking_mode::lazy, eol::cr_crlf >& a5, buffer_input< Reader, eol::cr_crlf, std::string, 64 >& b5 )
+   {
+      return lazy_and_buffer( a1, b1 ) + lazy_and_buffer( a2, b2 ) + lazy_and_buffer( a3, b3 ) + lazy_and_buffer( a4, b4 ) + lazy_and_buffer( a5, b5 );
+   }
+
    inline std::size_t all_pos( In_lf& a, In_cr& b, In_crlf& c, In_lf_crlf& d, In_cr_crlf& e )
    {
-      return all_rules( a ) + all_rules( b ) + all_rules( c ) + all_rules( d ) + all_rules( e );
+      return all_rules( a ) + all_rules( b ) + all_rules( c ) + all_rules( d ) + all_rules( e ) + input_ops( a ) + input_ops( b ) + input_ops( c ) + input_ops( d ) + input_ops( e ) + rematches( d );
    }
 }  // namespace vu::pos
